@@ -624,17 +624,36 @@ func (c *Ctx) ruleC11Close() {
 		} else {
 			r.Bad("C11-CLOSE", "finalise before close", "the handler of ')' moves the context cursor before the pending directive is finalised", where)
 		}
-	} else if g := c.fn("core", "JApiCore.processContextEnd"); g != nil {
-		pcd := c.P.LookupFunc("core", "JApiCore.processCurrentDirective")
-		a := callsIn(g.Pkg, g.Decl.Body, pcd)
-		b := callsIn(g.Pkg, g.Decl.Body, f.Obj)
-		if len(a) == 1 && len(b) == 1 && a[0].Pos() < b[0].Pos() && buildCFG(g.Decl.Body).dominatedBy(b[0], a[0]) {
-			r.Ok("C11-CLOSE", "finalise before close", "processContextEnd calls processCurrentDirective before closeLastExplicitContext", c.pos(g.Decl.Pos()))
-		} else {
-			r.Bad("C11-CLOSE", "finalise before close", "processContextEnd does not finalise the pending directive before closing the context", c.pos(g.Decl.Pos()))
-		}
 	} else {
-		r.Undecided("C11-CLOSE", "finalise before close", "processContextEnd not found", "")
+		// whoever calls the walk (the handler of ")", or the lexeme dispatch when the handler was written into its
+		// case) finalises the pending directive first
+		pcd := c.P.LookupFunc("core", "JApiCore.processCurrentDirective")
+		sites := 0
+		for _, g := range c.libFns() {
+			calls := callsIn(g.Pkg, g.Decl.Body, f.Obj)
+			if len(calls) == 0 || g.Obj == f.Obj {
+				continue
+			}
+			fins := callsIn(g.Pkg, g.Decl.Body, pcd)
+			gcf := buildCFG(g.Decl.Body)
+			for _, b := range calls {
+				sites++
+				ok := false
+				for _, a := range fins {
+					if a.Pos() < b.Pos() && gcf.dominatedBy(b, a) {
+						ok = true
+					}
+				}
+				if ok {
+					r.Ok("C11-CLOSE", "finalise before close", g.Name()+" calls processCurrentDirective before closeLastExplicitContext", c.pos(b.Pos()))
+				} else {
+					r.Bad("C11-CLOSE", "finalise before close", g.Name()+" does not finalise the pending directive before closing the context", c.pos(b.Pos()))
+				}
+			}
+		}
+		if sites == 0 {
+			r.Undecided("C11-CLOSE", "finalise before close", "no call of closeLastExplicitContext found", "")
+		}
 	}
 	// processEOF
 	if g := c.fn("core", "JApiCore.processEOF"); g != nil {
